@@ -66,6 +66,23 @@ def singular(rng, n, kind):
             A[(n-2)*n+j] = A[0*n+j] - A[1*n+j]
     return A
 
+def pivot_ties(A, n):
+    """does the maximum-magnitude pivot rule have a choice at some step (two candidates of equal, nonzero, maximal magnitude)?
+    If not, the factors (LU, P, pivots) are determined by 'partial pivoting by magnitude' and are compared with the model exactly;
+    if so, another valid tie-break gives other factors, and the case is checked by the oracle only (P*A = L*U, parity)."""
+    M = [[Fraction(A[i*n+j]) for j in range(n)] for i in range(n)]
+    for i in range(n):
+        col = [abs(M[k][i]) for k in range(i, n)]
+        mx = max(col)
+        if mx == 0: continue
+        if col.count(mx) > 1: return True
+        p = i + col.index(mx)
+        M[i], M[p] = M[p], M[i]
+        for j in range(i + 1, n):
+            f = M[j][i] / M[i][i]
+            for k in range(i, n): M[j][k] -= f * M[i][k]
+    return False
+
 def mk(elt, kind, n, A, family, nontrivial=True):
     M = (n, n, A)
     ar, fl = ARITH[elt], FLAT[elt]
@@ -76,6 +93,8 @@ def mk(elt, kind, n, A, family, nontrivial=True):
     elif kind == "lu":
         term = ("fl_res (fun r : matrix %s * nat * matrix %s => let '(lu, piv, perm) := r in fl_nat piv ++ @fl_mat %s %s perm ++ @fl_mat %s %s lu) (@lu_decomp %s %s)"
                 % (ar, ar, ar, fl, ar, fl, ar, coq_mat(elt, M)))
+        if pivot_ties(A, n):
+            term = None; family = family + "(pivot-tie: oracle only)"
     return Case(elt, "mat.%s %s" % (kind, tok_mat(elt, M)), term, meta={"kind": kind, "n": n, "A": A}, family=family, nontrivial=nontrivial)
 
 def generate(rng, tier):
